@@ -366,48 +366,54 @@ func check(ctx *pbt.Ctx, c Case) error {
 	// attached. Each hook gets its own number of handlers (1..12, from the shape of the case); a
 	// handler logs (hook, its position). The log must be, event by event, the complete run
 	// 0..k-1 of that hook's handlers, and the events themselves the recorded callback sequence.
-	var ddLog []byte // pairs: hook character, handler position
+	var ddLog []byte       // pairs: hook character, handler position
+	var ddDigests []uint64 // one per pair: what the snapshot handed to that handler said
 	var ddSeq strings.Builder
 	nh := func(hook byte) int { return 1 + (len(c.Lock)*7+len(c.Unlock)*3+int(c.Flags)+int(hook))%12 }
 	for _, hook := range []byte(kinds) {
 		hook := hook
 		for pos := 0; pos < nh(hook); pos++ {
 			pos := pos
-			note := func() {
+			note := func(st *interpreter.State) {
 				ddLog = append(ddLog, hook, byte(pos))
+				if pos <= 1 || pos == nh(hook)-1 { // first, second and last handler; 0 stands for "not looked at"
+					ddDigests = append(ddDigests, digestState(st.DataStack, st.AltStack, st.ElseStack, st.CondStack, st.ScriptIdx, st.OpcodeIdx)|1)
+				} else {
+					ddDigests = append(ddDigests, 0)
+				}
 				if pos == 0 {
 					ddSeq.WriteByte(hook)
 				}
 			}
 			switch hook {
 			case 'E':
-				dd.AttachBeforeExecute(func(*interpreter.State) { note() })
+				dd.AttachBeforeExecute(func(st *interpreter.State) { note(st) })
 			case 'e':
-				dd.AttachAfterExecute(func(*interpreter.State) { note() })
+				dd.AttachAfterExecute(func(st *interpreter.State) { note(st) })
 			case 'S':
-				dd.AttachBeforeStep(func(*interpreter.State) { note() })
+				dd.AttachBeforeStep(func(st *interpreter.State) { note(st) })
 			case 's':
-				dd.AttachAfterStep(func(*interpreter.State) { note() })
+				dd.AttachAfterStep(func(st *interpreter.State) { note(st) })
 			case 'O':
-				dd.AttachBeforeExecuteOpcode(func(*interpreter.State) { note() })
+				dd.AttachBeforeExecuteOpcode(func(st *interpreter.State) { note(st) })
 			case 'o':
-				dd.AttachAfterExecuteOpcode(func(*interpreter.State) { note() })
+				dd.AttachAfterExecuteOpcode(func(st *interpreter.State) { note(st) })
 			case 'C':
-				dd.AttachBeforeScriptChange(func(*interpreter.State) { note() })
+				dd.AttachBeforeScriptChange(func(st *interpreter.State) { note(st) })
 			case 'c':
-				dd.AttachAfterScriptChange(func(*interpreter.State) { note() })
+				dd.AttachAfterScriptChange(func(st *interpreter.State) { note(st) })
 			case 'Y':
-				dd.AttachAfterSuccess(func(*interpreter.State) { note() })
+				dd.AttachAfterSuccess(func(st *interpreter.State) { note(st) })
 			case 'N':
-				dd.AttachAfterError(func(*interpreter.State, error) { note() })
+				dd.AttachAfterError(func(st *interpreter.State, _ error) { note(st) })
 			case 'P':
-				dd.AttachBeforeStackPush(func(*interpreter.State, []byte) { note() })
+				dd.AttachBeforeStackPush(func(st *interpreter.State, _ []byte) { note(st) })
 			case 'p':
-				dd.AttachAfterStackPush(func(*interpreter.State, []byte) { note() })
+				dd.AttachAfterStackPush(func(st *interpreter.State, _ []byte) { note(st) })
 			case 'Q':
-				dd.AttachBeforeStackPop(func(*interpreter.State) { note() })
+				dd.AttachBeforeStackPop(func(st *interpreter.State) { note(st) })
 			case 'q':
-				dd.AttachAfterStackPop(func(*interpreter.State, []byte) { note() })
+				dd.AttachAfterStackPop(func(st *interpreter.State, _ []byte) { note(st) })
 			}
 		}
 	}
@@ -415,6 +421,8 @@ func check(ctx *pbt.Ctx, c Case) error {
 	// the debugger object is the caller's and may be attached to the next execution as well: the
 	// same program once more through the same object must be reported in exactly the same way
 	firstLog, firstSeq := append([]byte{}, ddLog...), ddSeq.String()
+	firstDigests := append([]uint64{}, ddDigests...)
+	ddDigests = nil
 	ddLog = ddLog[:0]
 	ddSeq.Reset()
 	withDD2 := libexec.Run(c.Unlock, c.Lock, flags, c.Ctx, dd)
@@ -473,6 +481,26 @@ func check(ctx *pbt.Ctx, c Case) error {
 	if !sameErr(withDD.Err, withDD2.Err) || !bytes.Equal(firstLog, secondLog) {
 		return fmt.Errorf("the same debug.NewDebugger object attached to a second execution of the same program reports it differently: result %v then %v, %d then %d handler calls (first difference at call %d); %s",
 			withDD.Err, withDD2.Err, len(firstLog)/2, len(secondLog)/2, firstDiff(firstLog, secondLog)/2, id)
+	}
+	// every handler of one event is handed the same snapshot, and it is the snapshot the recording
+	// debugger saw for that event (stacks, conditional and else stack, program counter)
+	if len(firstDigests)*2 == len(firstLog) {
+		ev := 0
+		for k := 0; k < len(firstLog); ev++ {
+			hook, want := firstLog[k], nh(firstLog[k])
+			for pos := 1; pos < want && k/2+pos < len(firstDigests); pos++ {
+				if firstDigests[k/2+pos] != 0 && firstDigests[k/2+pos] != firstDigests[k/2] {
+					return fmt.Errorf("debug.NewDebugger with %d handlers on hook %c: handler %d of event %d was handed a snapshot that differs from the one handler 0 got; %s", want, hook, pos, ev, id)
+				}
+			}
+			if ev < len(rec.events) && rec.events[ev].kind == hook {
+				e := rec.events[ev]
+				if d := digestState(e.stack, e.alt, e.els, e.cond, e.sidx, e.oidx) | 1; d != firstDigests[k/2] {
+					return fmt.Errorf("debug.NewDebugger: the snapshot handed to the handlers of event %d (%c) differs from the one a plain debugger receives for the same event (stack %x alt %x else %x cond %v pc %d:%d); %s", ev, hook, e.stack, e.alt, e.els, e.cond, e.sidx, e.oidx, id)
+				}
+			}
+			k += 2 * want
+		}
 	}
 	if rec.seq() != ddSeq.String() {
 		return fmt.Errorf("debug.NewDebugger reported a different callback sequence: %q vs %q; %s", ddSeq.String(), rec.seq(), id)
@@ -660,4 +688,32 @@ func TestLifecycle(t *testing.T) {
 		Name: "lifecycle", Quick: 60000, Thorough: 1500000,
 		Gen: genCase, Check: check,
 	})
+}
+
+// digestState folds what a snapshot says into one number (FNV-1a over the items with their
+// boundaries, the conditional stack and the program counter).
+func digestState(data, alt, els [][]byte, cond []int, sidx, oidx int) uint64 {
+	h := uint64(14695981039346656037)
+	mix := func(b byte) { h = (h ^ uint64(b)) * 1099511628211 }
+	num := func(n int) {
+		for i := 0; i < 8; i++ {
+			mix(byte(n >> (8 * i)))
+		}
+	}
+	for _, st := range [][][]byte{data, alt, els} {
+		num(len(st))
+		for _, it := range st {
+			num(len(it))
+			for _, b := range it {
+				mix(b)
+			}
+		}
+	}
+	num(len(cond))
+	for _, c := range cond {
+		num(c)
+	}
+	num(sidx)
+	num(oidx)
+	return h
 }
